@@ -31,7 +31,7 @@ def topics_bad(ts: ListSI) -> bool:
 def _(self: Ref['mqtt.client.pubsubs.MQTTProtocol'], request: Ref['mqtt.pdu.SUBSCRIBE']) -> Ref['Deferred']:
     requires(is_obj(self.addr))
     requires(live(self) and isa(self._pingReq, 'mqtt.pdu.PINGREQ'))
-    requires(is_int(request.qos) and is_none(request.msgId) and is_none(request.encoded) and is_unset(request.g_base))
+    requires(is_int(request.qos) and is_none(request.msgId) and is_none(request.encoded) and is_unset(request.g_base) and is_unset(request.g_addr))
     requires(is_unset(request.alarm) and is_unset(request.deferred) and is_unset(request.interval))
     requires(sub_shape_ok(request) or is_int(request.topics) or is_none(request.topics))
     ts = norm_sub(request)
@@ -76,7 +76,7 @@ def strs_bad(ts: ListStr) -> bool:
 def _(self: Ref['mqtt.client.pubsubs.MQTTProtocol'], request: Ref['mqtt.pdu.UNSUBSCRIBE']) -> Ref['Deferred']:
     requires(is_obj(self.addr))
     requires(live(self) and isa(self._pingReq, 'mqtt.pdu.PINGREQ'))
-    requires(is_none(request.msgId) and is_none(request.encoded) and is_unset(request.g_base))
+    requires(is_none(request.msgId) and is_none(request.encoded) and is_unset(request.g_base) and is_unset(request.g_addr))
     requires(is_unset(request.alarm) and is_unset(request.deferred) and is_unset(request.interval))
     requires(is_str(request.topics) or is_list_str(request.topics) or is_int(request.topics) or is_none(request.topics) or is_pair_si(request.topics))
     ts = norm_unsub(request)
@@ -107,8 +107,10 @@ def _():
 @ghost_at('mqtt.client.pubsubs.MQTTProtocol.doSubscribe', after='request.encode()')
 def _():
     gset(request.g_base, as_bytes(request.encoded))
+    gset(request.g_addr, self.addr)
 
 
 @ghost_at('mqtt.client.pubsubs.MQTTProtocol.doUnsubscribe', after='request.encode()')
 def _():
     gset(request.g_base, as_bytes(request.encoded))
+    gset(request.g_addr, self.addr)
